@@ -29,6 +29,16 @@ struct Meta<RpcResult<T>> {
   static void from_value(const Value& v, RpcResult<T>& x) { MetaOf<B>::from_value(v, static_cast<B&>(x)); }
 };
 
+template <typename T>
+struct Meta<nop::Status<T>> {
+  using B = nop::Result<nop::ErrorStatus, T>;
+  static constexpr bool kHandle = MetaOf<B>::kHandle, kTable = MetaOf<B>::kTable, kFloat = MetaOf<B>::kFloat;
+  static constexpr size_t kElemMax = MetaOf<B>::kElemMax;
+  static SchemaP schema() { return MetaOf<B>::schema(); }
+  static Value to_value(const nop::Status<T>& x) { return MetaOf<B>::to_value(static_cast<const B&>(x)); }
+  static void from_value(const Value& v, nop::Status<T>& x) { MetaOf<B>::from_value(v, static_cast<B&>(x)); }
+};
+
 struct RpcCall { int method; Value args; };
 struct RpcState {
   std::vector<RpcCall> log;
